@@ -95,7 +95,7 @@ def run_case(case):
                 "filter": lambda: filter(None, dest_before)}[dk]()
     w = RecWorld()
     random.seed(seed)
-    kw = {"evenly": evenly}
+    kw = {} if (evenly and case.get("evenly_omitted")) else {"evenly": evenly}     # documented default: evenly=True
     if mc is not None:
         kw["max_connects"] = mc
     out = []
@@ -262,6 +262,8 @@ def shard(prop, tier, seed, shard, nshards):
             case = dict(kind="randomly", n_src=ns, n_dest=nd, evenly=evenly, max_connects=mc,
                         seed=seed * 100000 + s, dest_kind=DEST_KINDS[s % len(DEST_KINDS)],
                         src_kind=("list", "tuple")[(s // len(DEST_KINDS)) % 2])
+            if evenly and s % 5 == 4:
+                case["evenly_omitted"] = True
             cls = ["evenly" if evenly else "random",
                    "boundary" if (mc is not None and ns == nd * mc) else "inside", "dest=" + case["dest_kind"]]
             acc.record(case, nontrivial(case), cls)
